@@ -47,6 +47,7 @@ pub fn run(ctx: &mut Ctx, suite: &str) {
         "c12e" => c12::run_emfile(ctx),
         "c13" => c12::run_shutdown(ctx),
         "c13e" => c12::run_shutdown_emfile(ctx),
+        "c10r" => c12::run_upload_revoked(ctx),
         "c19" => c19::run(ctx),
         "c20" => c20::run(ctx),
         _ => {
